@@ -14,6 +14,17 @@ fn wf(d: &ContainerDepths) -> bool {
     spec_depth_ok(d.structure as u32, d.array as u32, d.variant as u32, maybe_of(d) as u32)
 }
 
+/// Harness-only constructor used by the (de)serializer harnesses: a nesting state with the given counters.
+pub(crate) fn mk_depths(structure: u8, array: u8, variant: u8) -> ContainerDepths {
+    let mut d = ContainerDepths::default();
+    d.structure = structure;
+    d.array = array;
+    d.variant = variant;
+    d
+}
+pub(crate) fn counters(d: &ContainerDepths) -> (u8, u8, u8) { (d.structure, d.array, d.variant) }
+pub(crate) fn wf_depths(d: &ContainerDepths) -> bool { wf(d) }
+
 #[cfg(kani)]
 fn any_depths() -> ContainerDepths {
     let mut d = ContainerDepths::default();
